@@ -37,7 +37,7 @@ META = dict(
                 "discharges the inductive invariant lo < hi, n >= 1, cell*n = hi - lo of the 1-d integer core for unbounded arguments and "
                 "histories (2 obligations, reported in the evidence, not relied on). 1-d / 2-d / 3-d objects; plain-number arguments in 1-d; "
                 "identity steps (zero vector, factor one, k = 0, 4); results of copying steps must consist of new objects."),
-    technique="TLA+ heap-with-references model (Geom.tla, C13.tla), TLC exhaustive + simulation; histories replayed into code; random code histories validated by TLC (C13Trace.tla, C13X.tla); Apalache inductive invariant of the unbounded 1-d core (C13Core.tla)",
+    technique="TLA+ heap-with-references model (Geom.tla, C13.tla), TLC exhaustive + simulation; histories replayed into code; random code histories validated by TLC (C13Trace.tla, C13X.tla); Apalache inductive invariant of the unbounded 1-d core (C13Core.tla), the same as a TLAPS proof (C13CoreProof.tla)",
     design_ref="DESIGN.md section 7 C13, Appendix A.3/A.5",
 )
 
@@ -285,6 +285,7 @@ def run(ctx):
     # the unbounded integer core (spec/C13Core.tla): Apalache discharges the inductive invariant
     from .. import apalache
     apalache.run_stage(ctx)
+    apalache.tlaps_stage(ctx, "C13CoreProof.tla", needs=("C13Core.tla",))   # the same two facts as a checked proof (77 obligations)
     # the two-form contract at the edge of floating point (spec/C13X.tla): degenerate results, far points, extreme factors
     from .. import c13x
     c13x.run_stage(ctx, df, 400 if ctx.tier == "quick" else 6000)
